@@ -326,7 +326,7 @@ func init() {
 			js := []*JobCfg{world(15, 2, 0, 6, kG|kM, fLoss), world(15, 1, 0, 6, kG, fLoss|fProbe), world(15, 2, 0, 6, kG|kM, fDial), job(pkgServer, "HarnessC13", 0, 1), world(15, 2, 0, 5, kG|kM, fRemove), world(15, 2, 0, 6, kG, fLoss|fBatch), world(15, 2, 0, 6, kG|kM, fQuiet), world(15, 1, 1, 8, kG, fLoss|fHangup|fLate), noMapOrder(job(pkgServer, "HarnessC15Reuse", 0)), noMapOrder(job(pkgServer, "HarnessC15Reuse", 1))}
 			if tier == "thorough" {
 				// the quick jobs plus deeper ones (each measured to finish within minutes on 16 cores)
-				js = append(js, world(15, 2, 0, 7, kG|kM, fLoss), world(15, 2, 0, 7, kG|kM, fLoss|fProbe), world(15, 1, 1, 7, kG|kM, fLoss), world(15, 2, 0, 7, kG|kM, fDial), job(pkgServer, "HarnessC13", 1, 1), job(pkgServer, "HarnessC13", 0, 2), world(15, 2, 0, 7, kG|kM, fRemove), world(15, 2, 0, 7, kG|kM, fQuiet), world(15, 1, 1, 8, kG|kM, fQuiet|fHangup|fLate))
+				js = append(js, world(15, 2, 0, 7, kG|kM, fLoss), world(15, 2, 0, 7, kG|kM, fLoss|fProbe), world(15, 1, 1, 7, kG|kM, fLoss), world(15, 2, 0, 7, kG|kM, fDial), job(pkgServer, "HarnessC13", 1, 1), job(pkgServer, "HarnessC13", 0, 2), world(15, 2, 0, 7, kG|kM, fRemove), world(15, 2, 0, 7, kG|kM, fQuiet), world(15, 1, 1, 7, kG, fQuiet|fHangup|fLate))
 			}
 			return js
 		},
